@@ -36,6 +36,7 @@ pub fn req_obs(r: &parser::Request) -> Args {
         r.env_iter().map(|(k, v)| (k.as_ref().as_bytes().to_vec(), v.to_vec())).collect();
     env.sort();
     assert_eq!(env.len(), r.env_len());
+    assert_eq!(r.env_iter().len(), r.env_len(), "EnvIter is an ExactSizeIterator");
     for (k, v) in &env {
         let ks = std::str::from_utf8(k).expect("keys are strings");
         let lower = ks.to_ascii_lowercase();
